@@ -128,6 +128,13 @@ class HSPeer(BasePeer):
         out = [f"HTTP/1.1 {sp.get('status_raw', st)} {sp.get('reason', 'X')}".encode("utf-8")]
         for ln in sp.get("first_lines", ()):
             out.append(ln.encode("latin-1"))
+        hid = sp.get("hidden")
+        if hid:
+            # one over-long header line whose tail, from a given offset on, reads like the field the head lacks: it is the value
+            # of X-Padding, not a field (a reader that cuts long lines in two would see the field)
+            text = {"upgrade": "Upgrade: websocket", "connection": "Connection: Upgrade",
+                    "accept": "Sec-WebSocket-Accept: " + R.accept_for(self.key or "")}[hid["field"]]
+            out.append(b"X-Padding: " + b"a" * (int(hid["at"]) - 11) + text.encode("ascii"))
         for k, v in hdrs:
             out.append(f"{k}{sep}{v}".encode("utf-8" if not k.isascii() or not all(ord(ch) < 256 for ch in v) or any(0x7f < ord(ch) for ch in v) else "latin-1"))
         return b"\r\n".join(out) + b"\r\n\r\n"
@@ -202,7 +209,9 @@ def plan(tier, seed):
              for lo in (range(100, 600, 50) if tier == "thorough" else ())]
     items += [{"kind": "chains", "exhaustive": "all redirect chain lengths 0..5 x redirect_limit {0..4, default} x final good/bad"},
              {"kind": "positions", "step": 1, "exhaustive": "every byte position of a standard, a redirect and a subprotocol head as eof and as timeout point"},
-             {"kind": "variants", "exhaustive": "every Upgrade x Connection variant pair; every accept variant; every status"}]
+             {"kind": "variants", "exhaustive": "every Upgrade x Connection variant pair; every accept variant; every status"},
+             {"kind": "longline", "offsets": [1024, 4096, 8192, 65536] if tier == "quick" else [256, 1024, 2048, 4096, 8192, 16384, 32768, 65536, 131072, 262144],
+              "exhaustive": "a 101 head lacking Upgrade / Connection / Sec-WebSocket-Accept whose over-long X-Padding line reads like that field from offset N on, N over the usual buffer sizes"}]
     n = 8000 if tier == "quick" else 450000
     per = 250 if tier == "quick" else 2500
     for s in range(0, n, per):
@@ -241,6 +250,17 @@ def expand(item, seed):
                     yield {"hops": [f], "limit": limit, "subprotocols": None, "api": "connect", "fault": None, "timeout": 2 * S, "seed": 1}
                     yield {"hops": [dict(f, location_extra=f"ws://{host(1)}/x")], "limit": limit, "subprotocols": None, "api": "connect",
                            "fault": None, "timeout": 2 * S, "seed": 1}
+        return
+    if k == "longline":
+        for at in item["offsets"]:
+            for field in ("upgrade", "connection", "accept"):
+                f = _final(hidden={"field": field, "at": at})
+                f[field] = "missing"
+                yield {"hops": [f], "limit": None, "subprotocols": None, "api": "connect", "fault": None, "timeout": 2 * S, "seed": 1}
+            # control: a moderately long line beside the real fields is a correct upgrade (a limit on the length of header lines
+            # would be a legitimate hardening, so the control stays far below any plausible limit)
+            yield {"hops": [dict(_final(), first_lines=["X-Padding: " + "a" * min(at, 2000)])], "limit": None, "subprotocols": None, "api": "connect",
+                   "fault": None, "timeout": 2 * S, "seed": 1}
         return
     if k == "chains":
         for n in range(0, 6):
@@ -400,6 +420,12 @@ def run(sc, choices=None):
                 raise InvalidScenario("status_raw")
             if any((not isinstance(x, str)) or "\n" in x or "\r" in x for x in h.get("first_lines", ())):
                 raise InvalidScenario("first_lines")
+            hid = h.get("hidden")
+            if hid is not None:
+                if hid.get("field") not in ("upgrade", "connection", "accept") or not 64 <= int(hid.get("at", 0)) <= 300_000 or fault is not None:
+                    raise InvalidScenario("hidden")
+                if {"upgrade": h.get("upgrade", "std"), "connection": h.get("connection", "std"), "accept": h.get("accept", "right")}[hid["field"]] != "missing":
+                    raise InvalidScenario("hidden: the real field must be missing")
         prior = sc.get("prior")
         if prior not in (None, "connected", "closed") or (prior and sc.get("api") == "create_connection"):
             raise InvalidScenario("prior")
@@ -408,7 +434,7 @@ def run(sc, choices=None):
             raise InvalidScenario("timeout")
     except (KeyError, TypeError, ValueError) as e:
         raise InvalidScenario(str(e))
-    w = World(seed=int(sc.get("seed", 1)), step_cap=300_000)
+    w = World(seed=int(sc.get("seed", 1)), step_cap=300_000 if not any(h.get("hidden") for h in hops) else 6_000_000)
     registry = []
     for i, h in enumerate(hops):
         w.net.add_host(host(i), [(_rs.AF_INET, addr(i))])
